@@ -35,7 +35,7 @@ ASSUMPTIONS = [
     "field of characteristic 0, non-vanishing orbital-energy denominators",
     "vanishing spin blocks are covered by C15 (allowed_spin_blocks model and "
     "theorem C15_unreported_block_zero) and checked numerically there",
-    "quick tier: intermediates of order <= 2 and first-order RE residual; "
+    "quick tier: intermediates of order <= 2 and the RE residuals; "
     "third-order amplitudes / densities in the thorough tier",
 ]
 
@@ -58,8 +58,7 @@ DENSITIES = {
 }
 DEFINITIONAL = {"t2eri_1", "t2eri_2", "t2eri_3", "t2eri_4", "t2eri_5",
                 "t2eri_6", "t2eri_7", "t2eri_A", "t2eri_B", "t2sq"}
-SLOW = {"t4_2", "t1_3", "t2_3", "p0_3_oo", "p0_3_ov", "p0_3_vv",
-        "t1_2_re_residual", "t2_2_re_residual"}
+SLOW = {"t4_2", "t1_3", "t2_3", "p0_3_oo", "p0_3_ov", "p0_3_vv"}
 
 
 def real(e):
@@ -123,7 +122,18 @@ def run(ctx):
             if name in AMPLITUDES:
                 order, space = AMPLITUDES[name]
                 derived = real(gs["mp"].amplitude(order, space, names))
-                add(f"amplitude:{name}:{tag}", derived, d_once, syms)
+                if name == "t4_2":
+                    # the definition is written with two first-order doubles
+                    # amplitudes, the derived amplitude with one amplitude
+                    # and the eight-index denominator: equal only after the
+                    # first-order amplitudes are expanded on both sides
+                    derived = real(Expr(derived.sympy, real=True)
+                                   .expand_intermediates())
+                    d_cmp = real(cls.expand_itmd(indices=names,
+                                                 fully_expand=True))
+                    add(f"amplitude:{name}:{tag}", derived, d_cmp, syms)
+                else:
+                    add(f"amplitude:{name}:{tag}", derived, d_once, syms)
             elif name in RESIDUALS:
                 order, space = RESIDUALS[name]
                 derived = real(gs["re"].amplitude_residual(order, space,
@@ -179,7 +189,7 @@ def run(ctx):
         d = real(cls.expand_itmd(fully_expand=False))
         items = list(sym.items())
         if len(items) > 8:
-            items = rng.sample(items, 8 if quick else 40)
+            items = rng.sample(items, min(len(items), 8 if quick else 40))
         for perms, f in items:
             ictx = adcio.IdxCtx()
             try:
